@@ -130,7 +130,7 @@ def data_rdms(prob, data=None):
     data = prob['data'] if data is None else data
     ds = np.array([sub(d, prob) for d in data])
     pd = {'cond': [prob['labels'][p] for p in prob['pos']], 'index': [int(p) for p in prob['pos']]}
-    return RDMs(ds, pattern_descriptors=pd)
+    return gen.derived_cycle(RDMs(ds, pattern_descriptors=pd))     # at times a copy / unpickled / rebuilt from its dict
 
 
 def call_fitter(fname, model, data_obj, prob, method, sigma, normalize):
